@@ -13,12 +13,12 @@ CASES = [
  B("te-twice", HP, "if chunked_count > 1:", "if chunked_count > 2:", ["C01.rej.te2"], "chunked, chunked accepted"),
  B("ctl-drop-lf", HP, '_FIELD_VALUE_FORBIDDEN_CTL_RE: Final[Pattern[str]] = re.compile(\n    r"[\\x00-\\x08\\x0a-\\x1f\\x7f]"\n)', '_FIELD_VALUE_FORBIDDEN_CTL_RE: Final[Pattern[str]] = re.compile(\n    r"[\\x00-\\x08\\x0b-\\x1f\\x7f]"\n)', ["C01.lex.value"], "LF allowed inside a field value"),
  B("host-http10", HP, "if version_o == HttpVersion11 and hdrs.HOST not in headers:", "if version_o == HttpVersion10 and hdrs.HOST not in headers:", ["C01.rej.host"], "HTTP/1.1 without Host accepted"),
- B("barelf-lax", HP, '                    if b"\\n" in self._tail:\n                        raise BadHttpMessage("Bad line ending, expected CRLF")', '                    if b"\\n" in self._tail and self.lax:\n                        raise BadHttpMessage("Bad line ending, expected CRLF")', ["C01.rej.barelf"], "bare LF in the start line buffered in strict mode"),
+ B("barelf-lax", HP, '                    if b"\\n" in tail:\n                        raise BadHttpMessage("Bad line ending, expected CRLF")', '                    if b"\\n" in tail and self.lax:\n                        raise BadHttpMessage("Bad line ending, expected CRLF")', ["C01.rej.barelf"], "bare LF in the start line buffered in strict mode"),
  B("singleton-te", HP, '        "transfer-encoding",\n', "", ["C01.rej.singleton"], "two Transfer-Encoding headers accepted"),
  B("lax-default", HP, "    lax: ClassVar[bool] = False", "    lax: ClassVar[bool] = True", ["C01.strictmode"], "request parser runs lax"),
  B("hex-strip", HP, "                        if self._lax:  # Allow whitespace in lax mode.\n", "                        if size_b:  # Allow whitespace.\n", ["C01.lex.chunk"], "chunk size ` 5 ` accepted in strict mode"),
  B("hex-search", HP, "if not re.fullmatch(HEXDIGITS, size_b):", "if not re.match(HEXDIGITS, size_b):", ["C01.lex", "C01.rej.chunkhex"], "chunk size `5x` parsed as 5"),
- B("err-narrow", WP, "            except HttpProcessingError as exc:\n                messages = [", "            except LineTooLong as exc:\n                messages = [", ["C01.err400"], "only LineTooLong is answered 400"),
+ B("err-narrow", WP, "            except HttpProcessingError as exc:\n                self._parse_failed = True\n", "            except LineTooLong as exc:\n                self._parse_failed = True\n", ["C01.err400"], "only LineTooLong is answered 400"),
  B("error-keepalive", WP, None, None, ["C01.err400"], "placeholder"),
  B("trailers-unparsed", HP, "                            trailers, raw_trailers = self._headers_parser.parse_headers(\n                                self._trailer_lines\n                            )", "                            trailers = raw_trailers = None", ["C01.trailers"], "trailer fields skip the header syntax checks"),
  B("obsfold-strict", HP, "continuation = self._lax and line and line[0] in (32, 9)", "continuation = line and line[0] in (32, 9)", ["C01.rej.obsfold"], "folded lines continue a header in strict mode"),
